@@ -78,13 +78,13 @@ CHECKS = {
             'DESIGN.md section 4, C11'),
     'C16': ('exploration',
             'runtime monitor on emitted modules: symtable/ast analysis of the exact returned text (free global names, duplicate generator imports, import placement, user imports reproduced) plus execution (NameError/ImportError at import time)',
-            'Every import-needing construct (sqrt; T? in variable, parameter, return, field, nested generic; unions via if/match/declared incl. all-nullable ones; tuple types; function-typed parameters; Any; type alias; abstract types) alone x every user-import form (plain, aliased, from, from-as, multiple), pairs in both orders and random combinations of 2-5 constructs, generated programs, the construct sweep and all valid repository samples, with annotate on and off.',
+            'Every import-needing construct (sqrt; T? in variable, parameter, return, field, nested generic; unions via if/match/declared incl. all-nullable ones; tuple types; function-typed parameters; Any; type alias; abstract types) alone x every user-import form (plain, aliased, from, from-as, multiple; above the code and AFTER it), support names that occur only inside a nullable / generic / union type, pairs in both orders and random combinations of 2-5 constructs, generated programs, the construct sweep and all valid repository samples, with annotate on and off.',
             'Support names: math; Optional/Union/Tuple/Callable/Any/NewType from typing; ABC/abstractmethod from abc. Names bound by the user\'s own imports are allowed free names.',
             'DESIGN.md section 4, C16'),
     'C14': ('exploration',
             'metamorphic runtime monitor: program and trivia variant both transpiled by the real pipeline; verdicts and emitted bytes compared (Python AST and executed behaviour for redundant parentheses)',
             'For sweep cells, valid repository samples and small generated programs: every placement, one at a time, of a trailing comment, trailing spaces, a whole-line comment indented like the next / like the previous statement, 1-3 blank lines, whitespace-only lines of three indentations before every line (hence also before else, between match/handle head and first arm, between arms, before dedents), final-newline forms, comments at begin/end of file, LF->CRLF; and every sub-expression once in redundant parentheses.',
-            'No trivia is inserted inside string literals; comments are not transpiled, so bytes must be identical; a non-reproducible baseline is left to C12.',
+            'No trivia is inserted inside string literals (programs with multi-line literals get the file-level trivia only, and their LF/CRLF copies go through the real binary whose writer normalises line endings); comments are not transpiled, so bytes must be identical; a non-reproducible baseline is left to C12.',
             'DESIGN.md section 4, C14'),
     'C17': ('exploration',
             'runtime monitor on executed modules: the emitted module is run and introspected (inspect.signature of every function, class, method; constructor signature as Python sees it incl. inherited; __bases__ order) against the table implied by the Mamba definitions (names, order, default VALUES, variadic markers); a generated Python client then calls every function positionally, with defaults omitted, by keyword and by keyword in reverse order',
